@@ -102,6 +102,35 @@ def vertices_agree(shape, tol):
     return None
 
 
+def recentre_to(r, d):
+    """Shape recipe shifted by the vector d."""
+    if r["k"] == "group":
+        return {"k": "group", "m": [recentre_to(m, d) for m in r["m"]]}
+    if r["k"] == "poly":
+        out = dict(r, v=[[p[0] + d[0], p[1] + d[1]] for p in r["v"]])
+        if r.get("c") is not None:
+            out["c"] = [r["c"][0] + d[0], r["c"][1] + d[1]]
+        return out
+    c = r.get("c") or [0.0, 0.0]
+    return dict(r, c=[c[0] + d[0], c[1] + d[1]])
+
+
+def export_agrees(shape, tol):
+    """None if the planar geometry a library rectangle / polygon exports (shapely_object) is the one its public
+    attributes describe (groups: every member; circles: recorded finding, not compared), else a description."""
+    if isinstance(shape, (Rectangle, Polygon)):
+        ref = lib_shape_geo(shape)["v"]
+        got = np.asarray(shape.shapely_object.exterior.coords, dtype=float).tolist()
+        if not same_ring(got, ref, tol):
+            return "%s exports %r, its attributes describe %r" % (type(shape).__name__, got, ref)
+    elif isinstance(shape, ShapeGroup):
+        for m in shape.shapes:
+            d = export_agrees(m, tol)
+            if d:
+                return d
+    return None
+
+
 def _build_shape(r):
     k = r["k"]
     if k == "rect":
